@@ -127,6 +127,18 @@ func c13DoCall(fn, expr string, list []string) {
 func firstN(s string, n int) string { return first(s, n) }
 
 func c13CallCheck(cs c13Case) string {
+	if cs.Kind == "reuse" {
+		b := strings.Split(cs.Finding, "\x00")
+		want := SatRaw(cs.Expr, append([]string{}, b...))
+		buf := append([]string{}, cs.List...)
+		SatRaw(cs.Expr, buf)
+		copy(buf, b)
+		got := SatRaw(cs.Expr, buf)
+		if got != want {
+			return fmt.Sprintf("after Satisfies(%q, %q) the caller overwrote the same slice with %q: second call (%v, %q), fresh slice (%v, %q)", cs.Expr, cs.List, b, got.Ok, got.Err, want.Ok, want.Err)
+		}
+		return ""
+	}
 	if cs.Kind == "repeat" && len(cs.Calls) == 1 {
 		env := c13calls.NewEnv()
 		a := env.Do(cs.Calls[0])
@@ -550,7 +562,73 @@ func c13Run(c *Ctx) {
 			monitor("ExtractLicenses", a.Expr, nil)
 		}
 	}
-	c.Bound("monitors", map[string]any{"c04_core_lists_max_len": K, "c07_entry_lists_max_len": K})
+	// output monitor over every token sequence up to length 3 (all three functions)
+	{
+		full := toks(append(append([]string{}, c05Alphabet...), dontCareTokens...))
+		var si int64
+		seq := make([]Tok, 0, 4)
+		for l := 1; l <= 3; l++ {
+			forSeqs(len(full), l, &si, func(i int64, s []int) bool {
+				if !c.Mine(i) || c.Expired() {
+					return !c.Expired()
+				}
+				seq = seq[:0]
+				for _, a := range s {
+					seq = append(seq, full[a])
+				}
+				text := RenderLoose(seq)
+				monitor("ValidateLicenses", "", []string{text})
+				monitor("ExtractLicenses", text, nil)
+				monitor("Satisfies", text, []string{"MIT"})
+				return true
+			})
+		}
+	}
+	// the caller reuses one slice: call, overwrite its elements, call again — the second answer must be
+	// the answer for the new contents (an implementation that remembers the slice, not its contents, fails)
+	{
+		pool := append(append([]string{}, c07Entries...), "Zlib", "FOO")
+		exprs := []string{"MIT", "GPL-2.0 AND MIT", "Apache-2.0+ OR LicenseRef-a"}
+		var pi int64
+		for _, n := range []int{1, 2} {
+			forSeqs(len(pool), 2*n, &pi, func(i int64, s []int) bool {
+				if !c.Mine(i) || c.Expired() {
+					return !c.Expired()
+				}
+				a, b := make([]string, n), make([]string, n)
+				for k := 0; k < n; k++ {
+					a[k], b[k] = pool[s[k]], pool[s[n+k]]
+				}
+				for _, e := range exprs {
+					// the expected answers are taken first, from fresh slices (afterwards an
+					// implementation that remembers would answer them from memory, too)
+					want := SatRaw(e, append([]string{}, b...))
+					wv := ValRaw(append([]string{}, b...))
+					buf := append([]string{}, a...)
+					SatRaw(e, buf)
+					copy(buf, b)
+					got := SatRaw(e, buf)
+					vb := append([]string{}, a...)
+					ValRaw(vb)
+					copy(vb, b)
+					gv := ValRaw(vb)
+					c.Add("transitions", 6)
+					c.Inc("evaluations")
+					c.Inc("reused_slice_cases")
+					if got.Panic != "" || want.Panic != "" || gv.Panic != "" || wv.Panic != "" {
+						continue
+					}
+					if got != want || gv.Valid != wv.Valid || strings.Join(gv.Invalid, "\x00") != strings.Join(wv.Invalid, "\x00") {
+						c.Report(Violation{Kind: "c13.call", Class: "remembers-slice-not-contents", Key: fmt.Sprintf("reuse|%s|%q|%q", e, a, b), Size: len(e) + 10*n,
+							Msg:  fmt.Sprintf("after Satisfies(%q, %q) the caller overwrote the same slice with %q: the second call returned (%v, err=%q), a fresh slice with the same contents gives (%v, err=%q)", e, a, b, got.Ok, got.Err, want.Ok, want.Err),
+							Case: mustJSON(c13Case{Kind: "reuse", Expr: e, List: a, Calls: nil, Finding: strings.Join(b, "\x00")})})
+					}
+				}
+				return true
+			})
+		}
+	}
+	c.Bound("monitors", map[string]any{"c04_core_lists_max_len": K, "c07_entry_lists_max_len": K, "output_monitor_token_sequences_max_len": 3, "reused_slice_lists_max_len": 2})
 
 	// repeated identical calls in one process must give identical answers (also for long lists)
 	if c.Mine(1) {
